@@ -249,5 +249,11 @@ int main(int argc, char **argv)
         machineFamily<c09::EqWorld<4, c09::EQ_LIFE>>("equivalence-lifetime4", d5, d6), // 4 variables: depth-bounded (fixpoint is > 4e5 states)
     };
     fs.push_back(c09b::badargFamily());
+    if (argc == 2 && std::string(argv[1]) == "entries") { // the entry-point table, for the header cross-check in checks/c09.py
+        json a = json::array();
+        for (auto &e : c09b::entries()) a.push_back(e.name);
+        puts(a.dump().c_str());
+        return 0;
+    }
     return harnessMain(argc, argv, fs);
 }
